@@ -300,6 +300,37 @@ fn main() {
                         let (res, _) = exec::run(scn, src, record_ops, quarantine);
                         sink.put(scn, &res, &json!("default"));
                     }
+                    "dfs" if arg(&args, "--prefix-file").is_some() => {
+                        // drift-directed: enumerate below each given prefix of this scenario
+                        let txt = std::fs::read_to_string(arg(&args, "--prefix-file").unwrap()).unwrap_or_default();
+                        for (li, line) in txt.lines().enumerate() {
+                            if li % of != part {
+                                continue;
+                            }
+                            let v: Value = match serde_json::from_str(line) {
+                                Ok(v) => v,
+                                Err(_) => continue,
+                            };
+                            if v["scn"].as_str() != Some(scn.name.as_str()) {
+                                continue;
+                            }
+                            let fixed: Vec<usize> = v["prefix"].as_array().map(|a| a.iter().map(|x| x.as_u64().unwrap_or(0) as usize).collect()).unwrap_or_default();
+                            let mut dfs = explore::Dfs::with_fixed(bound, fixed);
+                            let mut n = 0;
+                            while let Some(p) = dfs.next_prefix() {
+                                if n >= max_runs || t_start.elapsed().as_secs_f64() > budget {
+                                    exhaustive = false;
+                                    break;
+                                }
+                                let src = Box::new(explore::Prefix { prefix: p });
+                                // same step structure as the lockstep replay that produced the prefix
+                                let (res, _) = exec::run_opt(scn, src, record_ops, quarantine, true);
+                                dfs.record(&res.steps);
+                                sink.put(scn, &res, &json!("dfs-below-drift"));
+                                n += 1;
+                            }
+                        }
+                    }
                     "dfs" => {
                         if si % of != part {
                             continue;
@@ -379,6 +410,7 @@ fn main() {
             let mut matched = 0usize;
             let mut drift = 0usize;
             let mut first_drift: Option<Value> = None;
+            let mut drifts: Vec<Value> = Vec::new();
             let mut skipped = 0usize;
             for line in std::io::BufReader::new(f).lines() {
                 let line = line.unwrap();
@@ -419,6 +451,23 @@ fn main() {
                         matched += 1;
                     } else {
                         drift += 1;
+                        if drifts.len() < 12 {
+                            // global step prefix that reaches the divergence: all steps up to the at-th step of the
+                            // concurrent phase
+                            let mut seen = 0usize;
+                            let mut cut = res.steps.len();
+                            for (i, st) in res.steps.iter().enumerate() {
+                                if st.multi {
+                                    if seen == at {
+                                        cut = i;
+                                        break;
+                                    }
+                                    seen += 1;
+                                }
+                            }
+                            let pre: Vec<usize> = res.steps[..cut].iter().map(|s| s.chosen).collect();
+                            drifts.push(json!({"scn": scn.name, "prefix": pre}));
+                        }
                         if first_drift.is_none() {
                             first_drift = Some(json!({"scn":scn.name,"at":at,
                                 "expected": exp.get(at), "got": got.get(at),
@@ -429,7 +478,7 @@ fn main() {
                 sink.put(scn, &res, &json!("replay"));
             }
             extra = json!({"lockstep_matched":matched,"lockstep_drift":drift,"first_drift":first_drift,
-                           "skipped_steps":skipped});
+                           "skipped_steps":skipped,"drifts":drifts});
         }
         _ => {
             eprintln!("unknown command");
